@@ -8,12 +8,21 @@
 namespace dg {
 
 struct Seg { int kind; size_t len; uint64_t seed; size_t period; size_t back; };
-static const char *KIND[] = {"random", "zeros", "ff", "const", "text", "periodic", "copy-back", "sawtooth", "lowent"};
+static const char *KIND[] = {"random", "zeros", "ff", "const", "text", "periodic", "copy-back", "sawtooth", "lowent", "adler-a-zero"};
 
 inline void expand(const std::vector<Seg> &segs, std::vector<uint8_t> &d) {
 	d.clear();
 	for (const Seg &s : segs) {
 		size_t base = d.size();
+		if (s.kind == 9) {
+			// as few bytes as needed to bring the low half of the running Adler-32 (1 + byte sum mod 65521) to exactly 0:
+			// the one value where "+1 / -1 then reduce" conversions between Adler conventions differ from the plain formula
+			uint64_t sum = 1;
+			for (uint8_t x : d) sum += x;
+			uint32_t need = (uint32_t) ((65521 - sum % 65521) % 65521);
+			while (need) { uint8_t v = need > 255 ? 255 : (uint8_t) need; d.push_back(v); need -= v; }
+			continue;
+		}
 		for (size_t i = 0; i < s.len; i++) {
 			uint8_t v;
 			switch (s.kind) {
@@ -64,9 +73,15 @@ inline void gen(pbt::Tape &t, std::vector<Seg> &segs, size_t cap, int *cls_out =
 	}
 	}
 	// leading run of >= 8 identical bytes sometimes (constant-block fast path of the stateless compressor)
-	if (cls >= 2 && t.range(0, 4) == 0) segs.insert(segs.begin(), Seg{t.coin() ? 1 : 2, (size_t) t.range(8, 400), 0, 1, 0});
+	// ... and sometimes a run of >= 4 KiB of 0x00/0xFF *followed by other data* (MIN_REPEAT_LEN: the fast path then covers only part of the input)
+	if (cls >= 2 && t.range(0, 4) == 0) {
+		uint32_t r = t.raw();
+		size_t run = (r & 3) == 3 ? 4090 + (size_t) ((r >> 2) % 5000) : 8 + (size_t) ((r >> 2) % 393);
+		segs.insert(segs.begin(), Seg{t.coin() ? 1 : 2, run, 0, 1, 0});
+	}
 	for (auto &s : segs) total += s.len;
 	while (total > cap && !segs.empty()) { total -= segs.back().len; segs.pop_back(); }
+	if (cls >= 1 && !segs.empty() && t.range(0, 5) == 0) segs.push_back(Seg{9, 0, 0, 1, 0}); // up to 257 bytes beyond cap
 }
 
 inline std::string describe(const std::vector<Seg> &segs) {
